@@ -36,6 +36,11 @@ def cases(tier, rng):
                 ops += ["wire a", "wire b"]
                 out.append("h%d sock SUB / %s" % (k, " / ".join(ops)))
                 k += 1
+    # large sets (not round numbers): a peer that joins late is told every one of them, like the peer that was there all along
+    for nt in (99, 100, 101, 150, 257, 1001):
+        ops = ["attach a PUB"] + ["sub %s" % W.tok(b"t%04d" % i_) for i_ in range(nt)] + ["attach b PUB", "unsub %s" % W.tok(b"t0000"), "attach c PUB", "wire a", "wire b", "wire c"]
+        out.append("m%d sock SUB / %s" % (k, " / ".join(ops)))
+        k += 1
     for _ in range(200 if tier == "quick" else 3000):
         names = "abc"[:rng.randint(2, 3)]
         ops = []
